@@ -32,8 +32,10 @@ CLI = "ekobox.cli"
 
 
 class FP(type(pathlib.PurePosixPath()), Opaque):
+    GENERATION = [0]          # bumped when "the files change on disk" between two invocations
+
     def read_text(self, encoding=None):
-        return ("TEXT", str(self))
+        return ("TEXT", str(self)) if not FP.GENERATION[0] else ("TEXT", str(self), FP.GENERATION[0])
 
 
 def _click_path_kwargs(call):
@@ -185,6 +187,29 @@ def run(chk):
                        f"{n} {style} argument(s): the solver is called with {got} (calls: {len(cap)}, raised: {raised}); required: theory card "
                        f"from {want[0]}, operator card from {want[1]}, output {want[2]} (an explicit output path is used as given)", where=frun.where,
                        instance=inst, how="PE with symbolic paths")
+    # a second invocation in the same process (a script, a notebook, a test runner) with the same path strings after the cards changed
+    # on disk - edited, regenerated, or the same relative names seen from another working directory - solves the cards of THAT moment
+    for n in (1, 2, 3):
+        paths = [FP(f"d{i}/f{i}") for i in range(n)]
+        seen = []
+        try:
+            for gen in (1, 2):
+                FP.GENERATION[0] = gen
+                del cap[:]
+                pe.call(frun.qname, [paths])
+                a, k = cap[0] if cap else ((), {})
+                a = list(a)
+                seen.append((a[0] if a else k.get("theory"), a[1] if len(a) > 1 else k.get("operator")))
+            stale = [c for c in seen[1] if not (isinstance(c, tuple) and isinstance(c[1], tuple) and c[1][-1] == 2)]
+            ok, msg = not stale, f"the second invocation solves {seen[1]}"
+        except (PERaise, IndexError) as e:
+            ok, msg = False, f"raises {e}"
+        finally:
+            FP.GENERATION[0] = 0
+        chk.decide(ok, "every-invocation-reads-the-cards-on-disk", frun.qname,
+                   f"{n} argument(s), two invocations in one process with the cards changed in between: {msg}; required: the cards as they are on "
+                   f"disk at the second invocation (something read at the first one is remembered)", where=frun.where, instance=f"n={n}",
+                   how="PE of two invocations in one evaluator, memoising decorators modelled")
     # nothing else of the command writes
     writes = [ast.unparse(c.func) for c in src.calls_in(frun) if isinstance(c.func, ast.Attribute) and c.func.attr in
               ("write_text", "write_bytes", "mkdir", "unlink", "dump", "safe_dump")]
